@@ -39,6 +39,22 @@ struct C19Vis {
 				if constexpr(D == 1) { got = std::addressof(*it); } else { auto&& row = *it; auto rf = firsts_of(row); got = std::addressof(brk(row, rf)); }
 				if(got != want) violation(K + "iteration", "begin()+" + std::to_string(n) + " does not designate the " + std::to_string(n) + "-th leading position of the twin"); }
 			if(n != m.size[0]) violation(K + "iteration-count", "begin()..end() visits " + std::to_string(n) + " positions, twin size " + std::to_string(m.size[0])); }
+		op((std::string(opn) + "/extension-range").c_str());  // `for(auto i : v.extension()) v[i]` is the documented way to walk the valid indices: the range must produce first, first+1, ..., last-1 and v[i] the i-first'th leading position
+		{ auto const ext = v.extension(); L n = 0; std::vector<L> z(std::size_t(D), 0);
+			if(L(ext.size()) != m.size[0]) violation(K + "extension-range:size", "extension().size()=" + std::to_string(L(ext.size())) + ", twin size " + std::to_string(m.size[0]));
+			if(L(ext.front()) != fs[0] || L(ext.back()) != fs[0] + m.size[0] - 1) violation(K + "extension-range:front-back", "extension().front()/back() = " + std::to_string(L(ext.front())) + "/" + std::to_string(L(ext.back())) + " for first index " + std::to_string(fs[0]) + " and size " + std::to_string(m.size[0]));
+			if(!ext.contains(fs[0]) || !ext.contains(fs[0] + m.size[0] - 1) || ext.contains(fs[0] - 1) || ext.contains(fs[0] + m.size[0])) violation(K + "extension-range:contains", "extension().contains() disagrees with [first, last) at the boundaries");
+			for(auto i : ext) { if(n >= m.size[0]) break;
+				if(L(i) != fs[0] + n) violation(K + "extension-range:value", "the " + std::to_string(n) + "-th index produced by iterating extension() is " + std::to_string(L(i)) + ", expected " + std::to_string(fs[0] + n));
+				if(L(ext[n]) != fs[0] + n || L(*(ext.begin() + n)) != fs[0] + n || L(*(ext.end() - (m.size[0] - n))) != fs[0] + n) violation(K + "extension-range:random-access", "extension()[n] / *(begin()+n) / *(end()-(size-n)) disagree with first+n at n=" + std::to_string(n));
+				z[0] = n; int const* want = base + m.off[std::size_t(m.lin(z))]; int const* got;
+				if constexpr(D == 1) { got = std::addressof(v[i]); } else { auto&& row = v[i]; got = std::addressof(brk(row, firsts_of(row))); }
+				if(got != want) violation(K + "extension-range:element", "v[i] for the " + std::to_string(n) + "-th index of extension() does not designate the " + std::to_string(n) + "-th leading position of the twin");
+				++n; }
+			if(n != m.size[0] || (ext.end() - ext.begin()) != m.size[0]) violation(K + "extension-range:count", "iterating extension() visits " + std::to_string(n) + " indices (end-begin=" + std::to_string(L(ext.end() - ext.begin())) + "), twin size " + std::to_string(m.size[0]));
+			std::vector<L> sz; std::apply([&](auto const&... x) { (sz.push_back([&] { L c = 0, prev = 0; bool first = true, ok = true; for(auto j : x) { if(!first && L(j) != prev + 1) ok = false; prev = L(j); first = false; if(++c > 1000) break; } return ok ? c : -1; }()), ...); }, v.extensions().base());
+			if(sz != m.size) violation(K + "extension-range:all-dimensions", "iterating each of extensions() visits " + join(sz, "x") + " consecutive indices, twin sizes " + m.shape());
+			count("extension_ranges_walked"); }
 		op((std::string(opn) + "/front-back").c_str());  // positional accessors: first and last leading POSITION, whatever the first index is
 		{ std::vector<L> z0(std::size_t(D), 0), zl(std::size_t(D), 0); zl[0] = m.size[0] - 1; int const* wf = base + m.off[std::size_t(m.lin(z0))]; int const* wb = base + m.off[std::size_t(m.lin(zl))]; int const* gf; int const* gb;
 			if constexpr(D == 1) { gf = std::addressof(v.front()); gb = std::addressof(v.back()); } else { auto&& f = v.front(); auto&& bk = v.back(); gf = std::addressof(brk(f, firsts_of(f))); gb = std::addressof(brk(bk, firsts_of(bk))); }
